@@ -143,6 +143,29 @@ func checkStringUnits(w *World, r *Report, rule string, onlyFor bool) int {
 		instrsOf(fn, func(in ssa.Instruction) {
 			switch x := in.(type) {
 			case *ssa.Convert:
+				// string(<[]byte value>): the sequence changes its unit (bytes → characters) in this
+				// sibling only
+				if bt, ok := x.Type().Underlying().(*types.Basic); ok && bt.Info()&types.IsString != 0 {
+					if sl, ok := x.X.Type().Underlying().(*types.Slice); ok {
+						if et, ok := sl.Elem().Underlying().(*types.Basic); ok && et.Kind() == types.Uint8 {
+							fromData := false
+							for _, o := range originChain(x.X) {
+								if ex, ok := o.(*ssa.Extract); ok {
+									o = ex.Tuple
+								}
+								if ta, ok := o.(*ssa.TypeAssert); ok {
+									if it, ok := ta.X.Type().Underlying().(*types.Interface); ok && it.NumMethods() == 0 {
+										fromData = true
+									}
+								}
+							}
+							if fromData {
+								n++
+								r.bad(rule, name, "string(<[]byte value>) in the "+role+" implementation", w.posOf(x.Pos()), "a byte slice handed in as data is turned into a string before it is measured or walked: this sibling counts characters where length, first, last and slice count the bytes of the same value ('héllo' as []byte: 6 elements there, 5 passes here)")
+							}
+						}
+					}
+				}
 				// []rune(s): the accepted idiom
 				if sl, ok := x.Type().Underlying().(*types.Slice); ok {
 					if bt, ok := sl.Elem().Underlying().(*types.Basic); ok && bt.Kind() == types.Int32 && isDataString(x.X, 0) {
